@@ -17,6 +17,7 @@ thread_local! {
     static OUTER_JOINED: std::cell::RefCell<Vec<u8>> = const { std::cell::RefCell::new(Vec::new()) };
     static PIPE_INPUTS: std::cell::Cell<bool> = const { std::cell::Cell::new(false) };
     static LIMIT: std::cell::Cell<Option<usize>> = const { std::cell::Cell::new(None) };
+    static AGAIN: std::cell::Cell<Option<usize>> = const { std::cell::Cell::new(None) };
 }
 
 const DEFS: &str = "CREATE TABLE raw(line = '(.*)', line[1] => x TEXT); CREATE TABLE j(line = '(.*)', line[1] => y TEXT); CREATE TABLE sp(line = split ';;;', line[1] => first TEXT, line[2] => second TEXT);";
@@ -149,6 +150,13 @@ impl C12 {
             s
         };
         spec.pipe_inputs = pipe;
+        if let Some(i) = AGAIN.with(|a| a.get()) {
+            if kind == "input" || kind == "count" {
+                if let Some(entry) = spec.files.get(i).cloned() {
+                    spec.files.push(entry);
+                }
+            }
+        }
         let res = run(out, label, &spec, want_trace);
         if !usable(out, "c12", &res, features) {
             return None;
@@ -248,6 +256,13 @@ impl Property for C12 {
                 lines.insert(pos, gen::gen_giant_line(rng, giant_len));
             }
             let final_nl = variant == "concat" || !rng.chance(1, 3);
+            if kind != "join" && kind != "outer" && !lines.is_empty() && rng.chance(1, 15) {
+                // text that happens to begin like a well-known binary / archive format
+                let magic: &[u8] = *rng.pick(&[&b"BZh91AY&SY"[..], b"PK\x03\x04", b"\x7fELF", b"%PDF-1.4", b"#!/bin/sh", b"<?xml version", b"ustar", b"SQLite format 3", b"GIF89a", b"Rar!"]);
+                let mut first = magic.to_vec();
+                first.extend_from_slice(&lines[0]);
+                lines[0] = first;
+            }
             if kind != "join" && !lines.is_empty() && rng.chance(1, 12) {
                 // a file that starts with a byte order mark (e.g. written by a Windows tool)
                 let mut first = "\u{FEFF}".as_bytes().to_vec();
@@ -281,6 +296,8 @@ impl Property for C12 {
             "pipe": rng.chance(1, 8),
             // input kind only: SELECT input ... LIMIT n (the lines after the n-th are legitimately not presented)
             "limit": if kind == "input" && rng.chance(1, 4) { json!(rng.range(1, 12)) } else { J::Null },
+            // one of the files is named a second time on the command line (f g f): its lines are presented again
+            "again": if (kind == "input" || kind == "count") && rng.chance(1, 10) { json!(rng.below(n_files)) } else { J::Null },
             // outer kind: the joined file may be empty, hold only non-matching text, or hold partners for some lines
             "outer_joined": enc(["", "", "zzz-no-partner\n", "a\n", "a\nb\na\n"][rng.below(5)].as_bytes()),
         })
@@ -293,6 +310,7 @@ impl Property for C12 {
         bytes_field(case, "outer_joined", &mut out);
         bool_field(case, "pipe", false, &mut out);
         set_field(case, "limit", J::Null, &mut out);
+        set_field(case, "again", J::Null, &mut out);
         steps_field(case, "steps", &mut out);
         set_field(case, "read_mode", json!("bulk"), &mut out);
         set_field(case, "kind", json!("input"), &mut out);
@@ -322,6 +340,9 @@ impl Property for C12 {
         }
         let steps = steps_from_json(case, "steps");
         let read_mode = read_mode_from_json(case, "read_mode");
+        let again: Option<usize> = if (kind == "input" || kind == "count") && variant == "transparent" { case.get("again").and_then(|x| x.as_u64()).map(|x| x as usize).filter(|i| *i < files.len()) } else { None };
+        AGAIN.with(|a| a.set(again));
+        out.probe("same_file_named_twice", again.is_some() as u64);
         let features = json!({"variant": variant, "kind": kind, "multi_file": files.len() > 1});
         // the generated content itself must be decodable (bad bytes are injected by the variant)
         if files.iter().any(|f| std::str::from_utf8(f).is_err()) {
@@ -337,7 +358,14 @@ impl Property for C12 {
             out.invalid = Some("CR in a join key".to_owned());
             return out;
         }
-        let m = model(&files);
+        let m = match again {
+            Some(i) => {
+                let mut all = files.clone();
+                all.push(files[i].clone());
+                model(&all)
+            }
+            None => model(&files),
+        };
         let n = m.len();
         let content_hash = fnv(serde_json::to_string(&case["files"]).unwrap().as_bytes());
         let expected_values: Vec<Vec<u8>> = if kind == "join" {
@@ -573,6 +601,7 @@ impl Property for C12 {
         out.probe("no_final_newline", files.iter().any(|f| !f.is_empty() && f.last() != Some(&b'\n')) as u64);
         out.probe("empty_file", files.iter().any(|f| f.is_empty()) as u64);
         out.probe("crlf", files.iter().any(|f| f.windows(2).any(|w| w == b"\r\n")) as u64);
+        out.probe("file_starts_like_a_binary_format", files.iter().any(|f| f.starts_with(b"BZh") || f.starts_with(b"PK") || f.starts_with(b"\x7fELF") || f.starts_with(b"%PDF") || f.starts_with(b"GIF8") || f.starts_with(b"Rar!")) as u64);
         out.probe("file_starts_with_bom", files.iter().any(|f| f.starts_with("\u{FEFF}".as_bytes())) as u64);
         out.probe("odd_characters", files.iter().any(|f| f.iter().any(|b| *b == 0 || *b == 0x0b || *b == 0x0c) || f.windows(3).any(|w| w == "\u{2028}".as_bytes())) as u64);
         out.probe("more_than_4096_lines_in_a_file", files.iter().any(|f| f.iter().filter(|b| **b == b'\n').count() > 4096) as u64);
